@@ -87,14 +87,21 @@ def chopped(entity):
 
 
 def emit_all(emit):
+    """Order: the probe tables the *model* names (`c11Sketches`, `c11Shapes`) first — every probe instance is built
+    inside its own `emit.guard`, so a class that can no longer be constructed is only missing from the table (the
+    model then answers `bad-op` for it and `T_C11_sketch_table` / the probe theorems fail), the others stay; then
+    the tables only `Props/C11.lean` names: grid probes and the `ast` group of disk.py, each one guarded group."""
     import classy_blocks as cb
 
-    sk = []
-    for name, mk in sketch_probes().items():
+    guard = getattr(emit, "guard", None) or (lambda fn, *a, **k: fn(*a, **k))
+
+    def sketch_entry(name, mk):
         s = mk()
         faces = list(s.faces)
         grid = [[next(i for i, f in enumerate(faces) if f is g) for g in row] for row in s.grid]
-        sk.append((name, [list(map(int, q)) for q in s.indexes], grid, [list(c) for c in type(s).chops]))
+        return (name, [list(map(int, q)) for q in s.indexes], grid, [list(c) for c in type(s).chops])
+
+    sk = [e for e in (guard(sketch_entry, name, mk) for name, mk in sketch_probes().items()) if e is not None]
     emit(
         "c11Sketches",
         "List (String × List (List Nat) × List (List Nat) × List (List Nat))",
@@ -102,8 +109,7 @@ def emit_all(emit):
         "sketch class: (name, MappedSketch.indexes in faces order, Sketch.grid as face indexes, Sketch.chops)",
     )
 
-    shapes = []
-    for name, (make, calls) in shape_probes().items():
+    def shape_entry(name, make, calls):
         disp = []
         ent = make()
         seen = []
@@ -112,7 +118,10 @@ def emit_all(emit):
             now = chopped(ent)
             disp.append([x for x in now if x not in seen])
             seen = now
-        shapes.append((name, blocking(ent), disp))
+        return (name, blocking(ent), disp)
+
+    probes = guard(shape_probes) or {}
+    shapes = [e for e in (guard(shape_entry, name, make, calls) for name, (make, calls) in probes.items()) if e is not None]
     emit(
         "c11Shapes",
         "List (String × List (List Nat) × List (List (Nat × Nat)))",
@@ -122,14 +131,21 @@ def emit_all(emit):
         "resp. shapes[0].chop(0)/shapes[0].chop(1)/stack.chop())",
     )
 
-    grids = []
-    for n, m in GRID_SIZES:
-        for k in (1, 2):
-            grids.append((n, m, k, blocking(cb.ExtrudedStack(cb.Grid([0, 0, 0], [1, 1, 0], n, m), 1.0, k))))
-    emit("c11GridProbes", "List (Nat × Nat × Nat × List (List Nat))", grids, "ExtrudedStack(Grid(n, m), k): (n, m, k, blocking)")
+    # ---- tables named by Props/C11.lean only
+    def grid_group():
+        grids = []
+        for n, m in GRID_SIZES:
+            for k in (1, 2):
+                grids.append((n, m, k, blocking(cb.ExtrudedStack(cb.Grid([0, 0, 0], [1, 1, 0], n, m), 1.0, k))))
+        emit("c11GridProbes", "List (Nat × Nat × Nat × List (List Nat))", grids, "ExtrudedStack(Grid(n, m), k): (n, m, k, blocking)")
 
-    for name, typ, val, doc in disk_generator_tables():
-        emit(name, typ, val, doc)
+    guard(grid_group)
+
+    def disk_ast_group():
+        for name, typ, val, doc in disk_generator_tables():
+            emit(name, typ, val, doc)
+
+    guard(disk_ast_group)
 
 
 # ----------------------------------------------------------------------------- point generators (round 6)
@@ -226,39 +242,59 @@ def disk_generator_tables():
             return pi_units(node.left) / lit(node.right)
         raise AssertionError("linspace stop: unexpected expression " + ast.dump(node))
 
-    def describe(elt) -> str:
-        star = isinstance(elt, ast.Starred)
-        v = elt.value if star else elt
-        if isinstance(v, ast.Call) and isinstance(v.func, ast.Attribute):
-            owner = v.func.value.id if isinstance(v.func.value, ast.Name) else "?"
-            args = ",".join(ast.unparse(a) for a in v.args)
-            s = f"{owner}.{v.func.attr}({args})"
-        else:
-            s = ast.unparse(v)
-        return ("*" if star else "") + s
-
     gens = []
     for cname in DISK_CLASSES:
         init = next(st for st in classes[cname].body if isinstance(st, ast.FunctionDef) and st.name == "__init__")
-        lin, ratios, layout = None, [], []
+        params = [a.arg for a in init.args.args if a.arg != "self"]
+        assigns = {}  # local name -> last assigned expression (statement order)
         for st in ast.walk(init):
-            if isinstance(st, ast.Assign) and isinstance(st.targets[0], ast.Name):
-                nm = st.targets[0].id
-                if nm == "angles":
-                    call = st.value
-                    assert isinstance(call, ast.Call) and call.func.attr == "linspace" and lit(call.args[0]) == 0
-                    kw = {k.arg: k.value for k in call.keywords}
-                    stop = pi_units(call.args[1])
-                    assert stop.denominator == 1
-                    endpoint = bool(kw["endpoint"].value) if "endpoint" in kw else True
-                    lin = (int(stop), int(lit(kw["num"])), endpoint)
-                elif nm == "ratios":
-                    ratios = [ast.unparse(e).replace("self.", "") for e in st.value.elts]
-                elif nm == "locations":
-                    layout = [describe(e) for e in st.value.elts]
-            if isinstance(st, ast.Call) and isinstance(st.func, ast.Attribute) and st.func.attr == "__init__" and st.args and isinstance(st.args[0], ast.List):
-                layout = [describe(e) for e in st.args[0].elts]
-        assert lin is not None and layout, cname
+            if isinstance(st, ast.Assign) and len(st.targets) == 1 and isinstance(st.targets[0], ast.Name):
+                assigns.setdefault(st.targets[0].id, st.value)
+        owners: list = []  # FanPattern objects in order of first use, so that local names do not matter
+
+        def is_call(node, attr):
+            return isinstance(node, ast.Call) and isinstance(node.func, ast.Attribute) and node.func.attr == attr
+
+        def role(elt) -> str:
+            """an element of the positions list, independent of the names of locals and parameters"""
+            star = isinstance(elt, ast.Starred)
+            v = elt.value if star else elt
+            if isinstance(v, ast.Name) and v.id in params and not star:
+                return f"param{params.index(v.id)}"
+            if isinstance(v, ast.Name) and v.id in assigns and not is_call(assigns[v.id], "asarray") and not is_call(assigns[v.id], "array"):
+                v = assigns[v.id]
+            for attr, tag in (("get_inner_points", "inner"), ("get_outer_points", "outer")):
+                if is_call(v, attr):
+                    owner = ast.unparse(v.func.value)
+                    if owner not in owners:
+                        owners.append(owner)
+                    return ("*" if star else "") + f"{tag}@{owners.index(owner)}"
+            return ("*" if star else "") + "expr"
+
+        # angles: the (first) np.linspace call of the constructor
+        call = next(v for v in assigns.values() if is_call(v, "linspace"))
+        assert lit(call.args[0]) == 0
+        kw = {k.arg: k.value for k in call.keywords}
+        stop = pi_units(call.args[1])
+        assert stop.denominator == 1
+        endpoint = bool(kw["endpoint"].value) if "endpoint" in kw else True
+        lin = (int(stop), int(lit(kw["num"])), endpoint)
+        # ratios: the second argument of the first get_inner_points call, resolved through a local if it is one
+        inner = next(v for v in ast.walk(init) if is_call(v, "get_inner_points"))
+        rl = inner.args[1]
+        if isinstance(rl, ast.Name):
+            rl = assigns[rl.id]
+        ratios = [e.attr if isinstance(e, ast.Attribute) and isinstance(e.value, ast.Name) and e.value.id == "self" else "expr" for e in rl.elts]
+        # positions: the list handed to MappedSketch.__init__ (directly or through one local)
+        sup = next(v for v in ast.walk(init) if is_call(v, "__init__"))
+        pos = sup.args[0]
+        if isinstance(pos, ast.Name):
+            pos = assigns[pos.id]
+        # parameters re-bound through np.asarray / np.array keep their parameter role
+        layout = []
+        for e in pos.elts:
+            layout.append(role(e))
+        assert layout, cname
         gens.append((cname, lin, ratios, layout))
     return [
         ("c11DiskConst", "(Nat × Nat) × (Nat × Nat) × (Nat × Nat)", (nd(consts["core_ratio"]), nd(diag.a), nd(diag.b)),
